@@ -1,3 +1,3 @@
-From LV Require Import Base.Bytes Gen.GenRange C15.RangeModel Date.DateModel.
+From LV Require Import Base.Bytes Gen.GenRange C15.RangeModel Date.DateModel C15.EtagModel.
 Require Import ExtrOcamlBasic.
-Extraction "model.ml" range_rfc7233 range_parse part_ok covered slice if_modified_since fmt_imf fmt_850 fmt_asctime.
+Extraction "model.ml" range_rfc7233 range_parse part_ok covered slice if_modified_since fmt_imf fmt_850 fmt_asctime etag_matches cachable.
